@@ -54,7 +54,41 @@ def structural(part: str) -> dict:
         return _structural_flag(tree, g, s_)
     if part == "liveness":
         return _structural_liveness(g, s_)
+    if part == "branches":
+        return _structural_branches(tree)
     return _structural_dict_key(tree)
+
+
+def _structural_branches(tree) -> dict:
+    """The isinstance branches of _cache_id, in order: SettingsCreator, str, Path, then the dict fallback."""
+    cid = _find(tree, "SQLCache", "_cache_id")
+    kinds = []
+    for st in cid.body:
+        if isinstance(st, ast.If) and isinstance(st.test, ast.Call) and _is_name(st.test.func, "isinstance") \
+                and _is_name(st.test.args[0], "settings") and isinstance(st.test.args[1], ast.Name):
+            kinds.append((st.test.args[1].id, st))
+    if [k for k, _ in kinds] != ["SettingsCreator", "str", "Path"]:
+        raise Untranslatable(f"_cache_id: isinstance branches are {[k for k, _ in kinds]}, expected SettingsCreator, str, Path")
+    out = {}
+    obj = kinds[0][1]
+    uses_id = any(isinstance(n, ast.Call) and _is_name(n.func, "id") and n.args and _is_name(n.args[0], "settings") for n in ast.walk(obj))
+    uses_content = any(isinstance(n, ast.Attribute) and n.attr == "create_settings_dict" for n in ast.walk(obj))
+    if not uses_id:
+        raise Untranslatable("_cache_id: the SettingsCreator branch does not use id(settings)")
+    plain = len(obj.body) == 1 and isinstance(obj.body[0], ast.Return) and isinstance(obj.body[0].value, ast.Call) \
+        and _is_name(obj.body[0].value.func, "str")
+    if not (plain or uses_content):
+        raise Untranslatable("_cache_id: unrecognised key for SettingsCreator objects")
+    out["rp_content_in_key"] = bool(uses_content)
+    s_ret = kinds[1][1].body
+    if not (len(s_ret) == 1 and isinstance(s_ret[0], ast.Return) and _is_name(s_ret[0].value, "settings")):
+        raise Untranslatable("_cache_id: the str branch does not return the string itself")
+    p_ret = kinds[2][1].body
+    if not (len(p_ret) == 1 and isinstance(p_ret[0], ast.Return) and isinstance(p_ret[0].value, ast.Call)
+            and _is_name(p_ret[0].value.func, "str") and _is_name(p_ret[0].value.args[0], "settings")):
+        raise Untranslatable("_cache_id: the Path branch does not return str(path)")
+    out["str_and_path_keys_are_the_path_text"] = True
+    return out
 
 
 def _structural_flag(tree, g, s_) -> dict:
@@ -189,10 +223,35 @@ def behavioural() -> dict:
     gc.collect()
     other = SettingsCreator(**creators_dict(1))
     dead = c.get(other, "uidC", sql_dialect_str="duckdb")
+    # mutation: the key of an object whose comparisons are replaced
+    mut = SettingsCreator(**creators_dict(0))
+    k_before = kid(mut, "duckdb")
+    mut.comparisons = creators_dict(1)["comparisons"]
+    out["mutation_changes_key"] = kid(mut, "duckdb") != k_before
+    out["flag_changes_key"] = _flag_changes_key()
     out["live_entry_served"] = alive is not None
     out["dead_entry_not_served"] = dead is None
     out["dead_entry_evicted"] = Fixed.key not in c._cache
     return out
+
+
+def _flag_changes_key() -> bool:
+    """Key-inequality probe for the flag: the keys under which compare_records stores its SQL for flag False / True."""
+    import splink.internals.realtime as R
+    from splink import DuckDBAPI, SettingsCreator
+    saved = R._sql_cache
+    try:
+        R._sql_cache = R.SQLCache()
+        s = SettingsCreator(**creators_dict(0))
+        api = DuckDBAPI()
+        r1 = {"unique_id": 1, "first_name": "ann", "surname": "x", "tf_first_name": 0.1}
+        r2 = {"unique_id": 2, "first_name": "ann", "surname": "x", "tf_first_name": 0.1}
+        R.compare_records(r1, r2, s, api, use_sql_from_cache=False, include_found_by_blocking_rules=False)
+        k1 = set(R._sql_cache._cache)
+        R.compare_records(r1, r2, s, api, use_sql_from_cache=False, include_found_by_blocking_rules=True)
+        return len(set(R._sql_cache._cache) - k1) == 1
+    finally:
+        R._sql_cache = saved
 
 
 def params() -> tuple[dict, list[str], dict]:
@@ -200,7 +259,7 @@ def params() -> tuple[dict, list[str], dict]:
     problems = []
     beh = behavioural()
     st = {}
-    for part in ("flag", "liveness", "dict_key"):
+    for part in ("flag", "liveness", "dict_key", "branches"):
         try:
             st.update(structural(part))
         except Untranslatable as e:
@@ -209,7 +268,14 @@ def params() -> tuple[dict, list[str], dict]:
         "rp_flag_in_key": st.get("rp_flag_in_key"),
         "rp_configured_in_key": bool(beh["configured_values_distinguish_keys"]),
         "rp_liveness_called": bool(beh["dead_entry_not_served"]),
+        "rp_content_in_key": bool(beh["mutation_changes_key"]),
     }
+    if "rp_content_in_key" in st and st["rp_content_in_key"] != beh["mutation_changes_key"]:
+        problems.append("source and probe disagree on whether the key of a SettingsCreator object follows its content")
+    if p["rp_flag_in_key"] is not None and p["rp_flag_in_key"] != beh["flag_changes_key"]:
+        problems.append("source and probe disagree on whether include_found_by_blocking_rules is part of the key")
+    if not beh["mutation_changes_key"]:
+        problems.append("a SettingsCreator object mutated between calls keeps its key (id() only): the cached SQL of its old content is served")
     if "rp_liveness_called" in st and st["rp_liveness_called"] != beh["dead_entry_not_served"]:
         problems.append("source says the weak reference is %scalled but a dead entry is %sserved"
                         % ("" if st["rp_liveness_called"] else "not ", "not " if beh["dead_entry_not_served"] else ""))
